@@ -535,6 +535,18 @@ def compile(object, return_code=False):
     object_expression = _get_expression_for(object)
 
     variables = code.variables
+
+    if not isinstance(object_expression, Variable):
+        # The compiled object is an expression that no statement binds to a name (e.g. a graph that was inlined to the
+        # function it calls): bind it, such that the returned code contains the object that it compiles to.
+        result_expression = object_expression
+        object_expression = Variable(block=code.root_block, allow_reusing_name=False)
+
+        def to_code(value_to_code):
+            return f"{value_to_code(object_expression)} = {value_to_code(result_expression)}"
+
+        code.root_block.append(Statement(to_code, inputs=[result_expression], output_variables=[object_expression], block=code.root_block))
+        variables = variables + [object_expression]
     statements = [statement for block in code.blocks for statement in block.statements]
 
     # Gather dependents per variable
